@@ -401,6 +401,36 @@ def run(ctx: Any, prog: Program) -> None:
         ctx.check('C16.Q5', from_map and not from_blocks, edbm, a10, f'get_fgd fills FGD.entities inside a loop over `{U(lps[0].iter)[:50]}`: blocks that an earlier engine_def() lookup has already decoded are blank in the block table, so '
                   'their entities are missing from the whole database (and the incomplete FGD is cached)', func='EngineDB.get_fgd', text='get_fgd takes the entities from the complete map')
 
+    # Q1 (strings as they are): what the database writers hand to str_dict() / write() is the field itself.  A writer that folds the case of a
+    # string (to share dictionary entries) stores another string than the definition holds; unserialise() hands that one back.
+    edb11 = prog.module('_engine_db')
+    n_sd = 0
+    for q11, fl11 in edb11.all_funcs().items():
+        if 'serialise' not in q11 or 'unserialise' in q11:
+            continue
+        for f11 in fl11:
+            ld11: Dict[str, List[ast.AST]] = {}
+            for a in walk_no_nested(f11):
+                if isinstance(a, ast.Assign):
+                    for t in a.targets:
+                        if isinstance(t, ast.Name):
+                            ld11.setdefault(t.id, []).append(a.value)
+            for c11 in [c for c in walk_no_nested(f11) if isinstance(c, ast.Call) and dotted(c.func) in ('str_dict', 'file.write') and c.args]:
+                n_sd += 1
+                todo11, seen11, folds = [c11.args[0]], set(), []
+                while todo11:
+                    e = todo11.pop()
+                    for x in ast.walk(e):
+                        if isinstance(x, ast.Call) and isinstance(x.func, ast.Attribute) and x.func.attr in ('casefold', 'lower', 'upper', 'title', 'capitalize', 'swapcase') and x is not c11:
+                            folds.append(x)
+                        if isinstance(x, ast.Name) and x.id in ld11 and x.id not in seen11:
+                            seen11.add(x.id)
+                            todo11 += ld11[x.id]
+                if folds:
+                    ctx.check('C16.Q1', False, edb11, folds[0], f'{q11} writes `{U(folds[0])[:50]}` into the database instead of the string itself: the definition read back has the folded spelling '
+                              '(`models/swarm/Bayonet/...` comes back lower-cased), so the binary format does not round-trip what the text format does', func=q11, text=f'{q11}: strings written unfolded')
+    ctx.shape('C16.Q1', n_sd >= 10, edb11, edb11.tree, f'{n_sd} str_dict()/write() calls found in the serialisers of _engine_db.py', text='database string writes')
+
     # Q3 (record-local values): every argument of a record constructor inside a parse loop is assigned in the same iteration before it is used
     ctx.rule('C16.Q7', 'values put into a parsed record (Resource / KVDef / IODef) are assigned in the iteration that builds the record, never carried over from the previous one', floor=1)
     RECORDS = {'Resource', 'KVDef', 'IODef'}
@@ -1188,6 +1218,7 @@ def run(ctx: Any, prog: Program) -> None:
 
 
 MUTANTS: List[Dict[str, Any]] = [
+    {'id': 'resource_paths_folded_in_database', 'file': '_engine_db.py', 'find': "        file.write(str_dict(res.filename))", 'replace': "        file.write(str_dict(res.filename.lower()))", 'expect': 'C16.Q1', 'note': 'round 13'},
     {'id': 'helper_blank_args_dropped', 'file': 'fgd.py', 'find': "                args = [\n                    arg.strip()\n                    for arg in\n                    token_value.split(',')\n                ]", 'replace': "                args = [\n                    arg.strip()\n                    for arg in\n                    token_value.split(',')\n                    if arg.strip()\n                ]", 'expect': 'C16.Q10', 'note': 'round 12'},
     {'id': 'get_fgd_from_block_lists', 'file': '_engine_db.py', 'find': "            for clsname, ent in self.ent_map.items():\n                assert isinstance(ent, EntityDef), (clsname, ent)\n                self.fgd.entities[clsname] = ent", 'replace': "            for classes, data in self.unparsed:\n                for clsname in classes:\n                    ent = self.ent_map[clsname.casefold()]\n                    assert isinstance(ent, EntityDef), (clsname, ent)\n                    self.fgd.entities[clsname.casefold()] = ent", 'expect': 'C16.Q5', 'note': 'round 12'},
     {'id': 'kv_order_keeps_capitals', 'file': 'fgd.py', 'find': "                    entity.kv_order.append(kv_def.name.casefold())\n                kv_tags_map[tags] = kv_def\n", 'replace': "                    entity.kv_order.append(kv_def.name)\n                kv_tags_map[tags] = kv_def\n", 'expect': 'C16.Q8', 'note': 'round 11'},
